@@ -456,6 +456,35 @@ def check_bounds(ctx: Ctx):
     ctx.ob("C19-O6", "R9 SANITISER->SINK", bo, "the incumbent is a copy of an evaluated point", ok and all(strip_copy(n.value.elts[0])[1] for n in stores), "", node=bo.node)
 
 
+def check_population_size(ctx: Ctx):
+    """The initial incumbent and every generation range over `range(size)`: every evaluated member must have an index
+    below `size`, so warm-start members are loaded only while fewer than `size` are present and the rest is filled up
+    to exactly `size`."""
+    for mod, q, cont, size in (("differential_evolution", "differential_evolution", "population", "pop_size"), ("particle_swarm", "particle_swarm", "positions", "n_particles")):
+        f = ctx.func(mod, q)
+        cfg = cfg_of(f.node)
+        gv = GuardView(cfg)
+        apps = [n for n in own_nodes(f.node) if isinstance(n, ast.Call) and ast.unparse(n.func) == f"{cont}.append"]
+        ctx.floor(f"{cont} appends in {q}", len(apps), 2)
+        ok = True
+        why = []
+        for a in apps:
+            an = cfg.stmt_node_containing(a)
+            at = gv.guard_atoms(an, stable_only=False)
+            bounded = atom_of(f"len({cont}) < {size}") in at
+            if not bounded:
+                ok = False
+                why.append(f"`{ast.unparse(a)[:40]}` at line {a.lineno} is not under `len({cont}) < {size}`")
+        other = [n for n in own_nodes(f.node) if isinstance(n, (ast.Assign, ast.AnnAssign)) and ast.unparse(n.targets[0] if isinstance(n, ast.Assign) else n.target) == cont and n.value is not None and ast.unparse(n.value) != "[]"]
+        if other:
+            ok = False
+            why.append(f"`{cont}` is also built as `{ast.unparse(other[0].value)[:50]}`")
+        fill = [n for n in own_nodes(f.node) if isinstance(n, ast.While) and ast.unparse(n.test) == f"len({cont}) < {size}"]
+        ctx.ob("C19-O3", "R6 INCUMBENT", f, f"`{cont}` holds exactly `{size}` members when it is evaluated (loads are capped, the rest is filled)", ok and len(fill) == 1, "; ".join(why) + (": members beyond the size are evaluated but never compared with the incumbent" if why else ""), node=apps[0] if apps else f.node)
+        t = ast.unparse(f.node)
+        ctx.ob("C19-O3", "R6 INCUMBENT", f, "the initial incumbent is the minimum over the same index range as the evaluated members", f"best_idx = min(range({size}), key=lambda i: fitness[i])" in t and f"fitness = [evaluate({'ind' if cont == 'population' else 'pos'}) for {'ind' if cont == 'population' else 'pos'} in {cont}]" in t, "", node=f.node)
+
+
 def check_evaluator(ctx: Ctx):
     m = ctx.repo.module("utils.helpers")
     init = m.funcs.get("Evaluator.__init__")
@@ -537,6 +566,7 @@ def run(ctx: Ctx):
     check_nm_shrink(ctx)
     check_group_b(ctx)
     check_bounds(ctx)
+    check_population_size(ctx)
     check_evaluator(ctx)
     generic_sweeps(ctx)
 
@@ -656,6 +686,11 @@ def _v_de_init_max(tree):
     M.replace_expr(g, lambda e: M.src_is(e, "min(range(pop_size), key=lambda i: fitness[i])"), M.expr("max(range(pop_size), key=lambda i: fitness[i])"))
 
 
+def _v_de_warm_start_uncapped(tree):
+    g = M.find_func(tree, "differential_evolution")
+    M.replace_stmt(g, lambda s: isinstance(s, ast.If) and M.src_is(s.test, "initial_population is not None"), M.stmts("population = [clip(list(ind)) for ind in initial_population or ()]"))
+
+
 def _t_reformat(tree):
     pass
 
@@ -692,6 +727,7 @@ VARIANTS = [
     M.Variant("Evaluator.to_user forgets the sign", HP, _v_evaluator_sign, "C19-O2"),
     M.Variant("nelder_mead stores the expanded point with the reflected value", NM, _v_nm_wrong_value, "C19-O1"),
     M.Variant("differential evolution starts from the worst individual", DE, _v_de_init_max, "C19-O3"),
+    M.Variant("differential evolution loads more warm-start members than it tracks (seed C19-D)", DE, _v_de_warm_start_uncapped, "C19-O3"),
     M.Variant("twin: reformat lns", LN, _t_reformat, None),
     M.Variant("twin: reformat anneal", AN, _t_reformat, None),
     M.Variant("twin: reformat particle_swarm", PS, _t_reformat, None),
